@@ -4,7 +4,7 @@
    settled where the run starts. *)
 From Coq Require Import List Arith Bool NArith Lia.
 From GV Require Import Base.Result Gen.TokenTypes Gen.Defs Model.Parser Spec.Layout Spec.LayoutSim
-  Proofs.C18.StepParts Proofs.C18.Sim Proofs.C18.Final Proofs.C18.Trim Proofs.C18.Detour.
+  Proofs.C18.StepParts Proofs.C18.Sim Proofs.C18.Final Proofs.C18.Trim Proofs.C18.Detour Proofs.C18.Settled.
 Import ListNotations.
 
 Lemma step_flag n n' i tok st :
@@ -96,4 +96,24 @@ Corollary whitespace_repetition pre post k :
 Proof.
   intros Hp Hq Hs. apply (trivia_runs_equivalent pre post Hp Hq Hs); try reflexivity.
   cbn [repeat trivia_run forallb]. induction k as [|k IH]; [reflexivity|exact IH].
+Qed.
+
+(* ---- the settled hypothesis, discharged syntactically ---- *)
+Lemma is_trim_pass t : is_trim t = true -> is_pass_tok t = true.
+Proof. destruct t; try discriminate; reflexivity. Qed.
+
+Lemma last_sig_drop l : forall acc, last_sig (drop_while_trim l) acc = last_sig l acc.
+Proof.
+  induction l as [|t r IH]; intros acc; [reflexivity|].
+  cbn [drop_while_trim]. destruct (is_trim t) eqn:Et; [|reflexivity].
+  cbn [last_sig]. rewrite (is_trim_pass t Et). apply IH.
+Qed.
+
+(* unless the last significant token before the gap ends a side-effect block *)
+Theorem trivia_runs_equivalent_unless_block_end pre post :
+  has_sig pre = true -> has_sig post = true -> not_after_block_end pre = true ->
+  trivia_runs_equivalent_at pre post.
+Proof.
+  intros Hp Hq Hn. apply trivia_runs_equivalent; [exact Hp|exact Hq|].
+  apply settled_unless_block_end. unfold not_after_block_end in *. rewrite last_sig_drop. exact Hn.
 Qed.
